@@ -28,7 +28,7 @@ FX_CA = os.path.join(vlib.REPO, "pkg/cpuallocator/testdata/sysfs.tar.bz2")
 FIXTURE_CACHE = os.path.join(vlib.OUT, "C08-fixtures")
 
 # generated machines (harness/internal/cpuallocdrv/machines.go): name -> number of online CPUs
-MACHINES = {"llc2x2x2-epp": 8, "hybrid-2p4e": 8, "dies-clusters": 8, "asym-llc": 8, "2pkg-offline-bf": 6,
+MACHINES = {"llc2x2x2-epp": 8, "hybrid-2p4e": 8, "dies-clusters": 8, "asym-llc": 8, "mixed-cache8": 8, "2pkg-offline-bf": 6,
             "2pkg-interleaved6": 6, "llc6-smt": 6, "hybrid6-1p4e": 6, "dies-llc6": 6, "llc10-smt": 10, "hybrid10-3p4e-offline": 9, "2pkg-llc10": 10}
 FIXTURES = {"fixture-desktop": (FX_TA, "sysfs/desktop/sys", 20), "fixture-server": (FX_TA, "sysfs/server/sys", 112),
             "fixture-2s4n40c": (FX_CA, "sysfs/2-socket-4-node-40-core/sys", 80)}
@@ -42,7 +42,7 @@ def _dir(ctx, name):
 
 def tier_plan(ctx):
     q = ctx.quick
-    full = [("llc2x2x2-epp", 16), ("llc6-smt", 4), ("hybrid6-1p4e", 4), ("dies-llc6", 4), ("2pkg-offline-bf", 4), ("2pkg-interleaved6", 4)]
+    full = [("llc2x2x2-epp", 16), ("mixed-cache8", 16), ("llc6-smt", 4), ("hybrid6-1p4e", 4), ("dies-llc6", 4), ("2pkg-offline-bf", 4), ("2pkg-interleaved6", 4)]
     sample = [("fixture-desktop", 16, 4), ("fixture-server", 6, 6)]
     if not q:
         full += [("hybrid-2p4e", 16), ("dies-clusters", 16), ("asym-llc", 16),
